@@ -362,6 +362,18 @@ def check_matrix(recipe) -> list[Fail]:
     inp = recipe["input"]
     d = _tmp()
     try:
+        # process history: every entry point has been used before (string loaders, a refused format, a dump) - later calls must not care
+        try:
+            ml.loads("1\nwarm\nH 0.0 0.0 0.0\n", "xyz")
+            ml.loads_all("1\nwarm\nH 0.0 0.0 0.0\n", "xyz")
+            ml.dumps(ml.Molecule(["H"], coords=[[0.0, 0.0, 0.0]]), "xyz")
+            for fn_ in (ml.loads, ml.loads_all):
+                try:
+                    fn_("x", "cdxml")
+                except Exception:
+                    pass
+        except Exception as e:
+            fails.append(Fail(f"raises:warm-up:{exc_sig(e) or type(e).__name__}", repr(e)[:200]))
         fmt_real = inp["fmt"]
         if "file" in inp:
             path = str(getattr(ml.files, inp["file"]))
